@@ -779,19 +779,37 @@ theorem vals_copyHeader (skip : List Str) (dst src : Hdr) (hg : Good src) (k : S
 
 /-! ### the response side as a whole -/
 
-theorem vals_merged (hop skip : List Str) (hc : CanonicalNames hop) (repl : Str → Str) (down : Rules) (pre : Hdr)
-    (res : Response) (hg : Good res.header) (hni : nonInterfering down = true) (k : Str) :
-    (copyHeader skip pre (applyRules repl (stripHop hop res.header) down)).vals k =
-      expectRespVals hop skip repl down pre res k := by
-  have hg3 : Good (applyRules repl (stripHop hop res.header) down) :=
-    Good_applyRules repl down _ (Good_stripHop hop _ hg)
-  have hv : (applyRules repl (stripHop hop res.header) down).vals k =
-      ruleEffect repl down k (if isHop hop res.header k then [] else res.header.vals k) := by
-    rw [vals_applyRules _ _ _ _ hni, vals_stripHop hop hc]
+theorem Good_applyRepls (repl : Str → Str) (repls : Repls) (h : Hdr) (hg : Good h) : Good (applyRepls repl h repls) := by
+  unfold applyRepls
+  induction repls generalizing h with
+  | nil => exact hg
+  | cons fr rs ih =>
+    apply ih
+    obtain ⟨field, pts⟩ := fr
+    unfold applyRepl
+    simp only
+    induction pts generalizing h with
+    | nil => exact hg
+    | cons pt pts ih2 =>
+      simp only [List.foldl_cons]
+      apply ih2
+      by_cases hc : (repl pt.2 != [] && h.get field != []) = true
+      · simp only [hc, if_true]; exact Good_set h hg _ _
+      · simp only [hc, Bool.false_eq_true, if_false]; exact hg
+
+theorem vals_merged (hop skip : List Str) (hc : CanonicalNames hop) (repl : Str → Str) (down : Rules) (dr : Repls) (pre : Hdr)
+    (res : Response) (hg : Good res.header) (hni : nonInterfering down = true) (hrd : replsDistinct dr = true) (k : Str) :
+    (copyHeader skip pre (applyRepls repl (applyRules repl (stripHop hop res.header) down) dr)).vals k =
+      expectRespVals hop skip repl down dr pre res k := by
+  have hg3 : Good (applyRepls repl (applyRules repl (stripHop hop res.header) down) dr) :=
+    Good_applyRepls repl dr _ (Good_applyRules repl down _ (Good_stripHop hop _ hg))
+  have hv : (applyRepls repl (applyRules repl (stripHop hop res.header) down) dr).vals k =
+      replEffect repl dr k (ruleEffect repl down k (if isHop hop res.header k then [] else res.header.vals k)) := by
+    rw [vals_applyRepls _ _ _ _ hrd, vals_applyRules _ _ _ _ hni, vals_stripHop hop hc]
   rw [vals_copyHeader skip pre _ hg3 k, Hdr.has_iff_vals _ hg3.2, hv]
   unfold expectRespVals mergeVals
   simp only
-  generalize ruleEffect repl down k (if isHop hop res.header k then [] else res.header.vals k) = s2
+  generalize replEffect repl dr k (ruleEffect repl down k (if isHop hop res.header k then [] else res.header.vals k)) = s2
   cases hp : pre.has k
   · have := vals_of_not_has pre k hp
     by_cases h2 : s2 = [] <;> simp [h2, this]
@@ -804,11 +822,11 @@ theorem vals_merged (hop skip : List Str) (hc : CanonicalNames hop) (repl : Str 
           simp [h2, hsv, this]
       · simp [h2, hs]
 
-theorem vals_respond (hop skip : List Str) (hc : CanonicalNames hop) (repl : Str → Str) (down : Rules) (pre : Hdr)
-    (res : Response) (hg : Good res.header) (hni : nonInterfering down = true) (k : Str) :
-    (respond hop skip repl down pre res).header.vals k =
+theorem vals_respond (hop skip : List Str) (hc : CanonicalNames hop) (repl : Str → Str) (down : Rules) (dr : Repls) (pre : Hdr)
+    (res : Response) (hg : Good res.header) (hni : nonInterfering down = true) (hrd : replsDistinct dr = true) (k : Str) :
+    (respond hop skip repl down dr pre res).header.vals k =
       if res.announced.length > 0 ∧ k = sTrailer then res.announced
-      else expectRespVals hop skip repl down pre res k := by
+      else expectRespVals hop skip repl down dr pre res k := by
   unfold respond
   simp only
   by_cases ha : res.announced.length > 0
@@ -817,12 +835,12 @@ theorem vals_respond (hop skip : List Str) (hc : CanonicalNames hop) (repl : Str
     by_cases hk : k = sTrailer
     · simp [hk]
     · simp only [hk, if_false]
-      exact vals_merged hop skip hc repl down pre res hg hni k
+      exact vals_merged hop skip hc repl down dr pre res hg hni hrd k
   · simp only [ha, if_false, false_and]
-    exact vals_merged hop skip hc repl down pre res hg hni k
+    exact vals_merged hop skip hc repl down dr pre res hg hni hrd k
 
-theorem respond_status (hop skip : List Str) (repl : Str → Str) (down : Rules) (pre : Hdr) (res : Response) :
-    (respond hop skip repl down pre res).status = res.status := rfl
+theorem respond_status (hop skip : List Str) (repl : Str → Str) (down : Rules) (dr : Repls) (pre : Hdr) (res : Response) :
+    (respond hop skip repl down dr pre res).status = res.status := rfl
 
 /-! ### trailers -/
 
@@ -965,8 +983,8 @@ theorem of_hasPrefix (k p : Str) (h : hasPrefix k p = true) : p ++ k.drop p.leng
   subst ht; simp
 
 /-- the response header map of `respond` before the `Trailer` announcement is written -/
-def mergedHeader (hop skip : List Str) (repl : Str → Str) (down : Rules) (pre : Hdr) (res : Response) : Hdr :=
-  copyHeader skip pre (applyRules repl (stripHop hop res.header) down)
+def mergedHeader (hop skip : List Str) (repl : Str → Str) (down : Rules) (dr : Repls) (pre : Hdr) (res : Response) : Hdr :=
+  copyHeader skip pre (applyRepls repl (applyRules repl (stripHop hop res.header) down) dr)
 
 /-- Side conditions of the trailer theorem: what net/http guarantees about `res.Trailer`, and that
 trailer names and header names do not collide. -/
@@ -990,9 +1008,9 @@ theorem prefix_inj (a b : Str) (h : sTrailerPrefix ++ a = sTrailerPrefix ++ b) :
 
 theorem sTrailer_not_prefixed : hasPrefix sTrailer sTrailerPrefix = false := by decide
 
-theorem clientTrailers_respond (hop skip : List Str) (repl : Str → Str) (down : Rules) (pre : Hdr) (res : Response)
-    (hs : TrailerSide (mergedHeader hop skip repl down pre res) res) (k' : Str) :
-    (clientTrailers (respond hop skip repl down pre res)).vals k' = res.trailer.vals k' := by
+theorem clientTrailers_respond (hop skip : List Str) (repl : Str → Str) (down : Rules) (dr : Repls) (pre : Hdr) (res : Response)
+    (hs : TrailerSide (mergedHeader hop skip repl down dr pre res) res) (k' : Str) :
+    (clientTrailers (respond hop skip repl down dr pre res)).vals k' = res.trailer.vals k' := by
   have hK : res.trailer.keys.Nodup := nodup_dedup _
   have hcanonK : ∀ a ∈ res.trailer.keys, canon a = a := by
     intro a ha
@@ -1008,7 +1026,7 @@ theorem clientTrailers_respond (hop skip : List Str) (repl : Str → Str) (down 
     | true => exact absurd ((mem_keys _ _).mpr hh) hk
   unfold clientTrailers respond
   simp only
-  generalize hm : copyHeader skip pre (applyRules repl (stripHop hop res.header) down) = merged
+  generalize hm : copyHeader skip pre (applyRepls repl (applyRules repl (stripHop hop res.header) down) dr) = merged
   have hs' : TrailerSide merged res := by rw [← hm]; exact hs
   -- the header map at WriteHeader
   generalize hsnap : (if res.announced.length > 0 then merged.setRaw sTrailer res.announced else merged) = snap
